@@ -145,6 +145,17 @@ def run_frontend(fe, tab, config_dict):
     cols = {k: np.array(tab[k], dtype="float64") for k in ("v", "w", "z", "lat", "lon") if k in tab}
     kind, _, variant = fe.partition(":")
     cfg = Config(config_dict)
+    if variant == "names":
+        # custom axis names handed to the stream constructor
+        ren = {"time": "t", "z": "depth", "lat": "y", "lon": "x"}
+        c2 = {ren.get(k, k): a for k, a in cols.items()}
+        names = dict(time="t", z="depth", lat="y", lon="x")
+        if kind == "pandas":
+            return list(PandasStream(pd.DataFrame({"t": times, **c2}), **names).run(cfg))
+        ds = xr.Dataset({k: ("t", a) for k, a in c2.items()}, coords={"t": times})
+        if kind == "netcdf":
+            return list(NetcdfStream(ds, **names).run(cfg))
+        return list(XarrayStream(ds, **names).run(cfg))
     if kind == "pandas":
         df = pd.DataFrame({"time": times, **cols})
         if variant == "shift":
